@@ -126,6 +126,10 @@ def _run(case: dict) -> Result:
             a = OPS.resolve(root, op)
         except OPS.NotApplicable:
             continue
+        except Exception:  # noqa: BLE001
+            if op.get('f') != 'space':
+                continue   # preparing an edit failed on a tree an earlier edit broke: the edits are other properties' subject
+            raise
         if op.get('f') != 'space':
             # edit history before the spacing accesses: the accessors are defined on the document as it is now, whichever way it got there
             try:
@@ -141,8 +145,16 @@ def _run(case: dict) -> Result:
         try:
             fa, lb = order.ord(m.first_token), order.ord(m.last_token)
         except Exception:  # noqa: BLE001
-            continue
+            fa = lb = None
         if fa is None or lb is None:
+            # a model reached from the document root whose ends are not in the document's store (an earlier edit broke the tree - C05's
+            # subject): the reference cannot say what the adjacent run is, but the accessor must at least answer
+            try:
+                getattr(m, 'spacing_' + side)
+            except Exception as e:  # noqa: BLE001
+                res.bad(f'read-raised:{side}:{type(e).__name__}', f'{type(m).__name__}.spacing_{side} raised {e!r} on a model reached from the document root '
+                        f'(after {[o for o in case.get("ops", []) if o.get("f") != "space"][-2:]})')
+                break
             continue
         boundary, step = (fa, -1) if side == 'before' else (lb, 1)
         run, zw = ref_run(order, boundary, step)
